@@ -53,8 +53,8 @@ T = {
          "For library-produced, foreign and mutated/invalid streams, the finest partition defines per-offset outputs and the first error; every other partition must deliver the same things in the calls that cover those offsets.",
          "Acknowledgement packets excluded (per-call by definition, C17); results of a failing call are not 'delivered'.", "4/C15"),
  "C16": ("independent per-csid reassembly as oracle on the real deserializer over interleaved foreign streams",
-         "Generates interleavings of multi-chunk messages on distinct csids and compares the library's deliveries with the reference reassembly; sharp up to the first overlap point.",
-         "Known finding F10 keyed on divergence at/after the first csid overlap.", "4/C16"),
+         "Generates interleavings of multi-chunk messages on distinct csids (no-overlap, audio-inside-video, round-robin, pairwise, random) and compares the library's deliveries with the reference reassembly, in two phases around the first overlap point.",
+         "No open known finding (F10 repaired); regressions at/after the first overlap keep the former signature.", "4/C16"),
  "C17": ("byte-conservation model (W, outstanding) as online monitor on both sessions' acknowledgement output",
          "Small windows exhaustively against call-size patterns, sampled large windows, re-announcements and a >4 GiB volume run; acknowledgements extracted by decoding the returned packets independently.",
          "Call-granular reading of 'since the window was learned' (DESIGN section 5).", "4/C17"),
